@@ -3428,7 +3428,10 @@ FROM (
 
         # output == "all": union(setdiff(op, computed), computed)
         id_cols = [quote_name(c) for c in ds.get_identifiers_names()]
-        all_cols = [quote_name(c) for c in ds.get_components_names()]
+        # Plain attributes are not part of the result (nor of _computed)
+        all_cols = [
+            quote_name(name) for name, comp in ds.components.items() if comp.role != Role.ATTRIBUTE
+        ]
         all_cols_csv = ", ".join(all_cols)
         id_cols_csv = ", ".join(id_cols)
         cte.cte("_computed", computed_sql)
